@@ -16,6 +16,7 @@ BANG2 = ["add", "sub", "mul", "and", "or", "eq", "ne", "lt", "le", "gt", "ge", "
          "shl", "sra", "srl", "xor", "div", "con", "listremove", "listsplat", "interleave", "range", "find"]
 BANG1 = ["not", "size", "head", "tail", "empty", "tolower", "toupper", "logtwo", "listflatten", "repr",
          "initialized", "getdagop", "getdagname"]
+DOC_SPACES = ["\u3000", "\u00a0", "\u2003", "\u3000\u3000", "\u00a0 "]
 NONASCII = ["é", "漢字", "\U0001F600", "ß", " ", " ", "ｘ"]
 
 
@@ -277,6 +278,16 @@ class Gen:
             "multiclass M { def X; }\ndefm %s : M;\ndefm : M;\ndef %s { int %s = 1; }\ndef { int %s = 2; }\ndef d { int z = %s.%s; }" % (nm, "anonymous_%d" % (k + 1), f, g, "anonymous_%d" % (k + 1), f),
             "class %s;\ndefset list<%s> s = { defm %s : M; def %s : %s; }\nmulticlass M { def X : %s; }\ndef : %s;\ndef e { %s q = %s; }" % (c, c, nm, nm, c, c, c, c, nm),
         ]
+        n1, n2 = "anonymous_%d" % (k + 1), "anonymous_%d" % (k + 2)
+        # CONSECUTIVE generated names taken by named defs before an anonymous def / defm (the retry of next_anonymous_def_name)
+        pats += [
+            "class %s;\ndef %s : %s;\ndef %s : %s;\ndef : %s;\ndef e { %s q = %s; }" % (c, nm, c, n1, c, c, c, n1),
+            "def %s { int %s = 1; }\ndef %s { int %s = 2; }\ndef %s { int %s = 3; }\ndef { int w = 4; }\ndef d { int z = %s.%s; }" % (nm, f, n1, g, n2, f, n1, g),
+            "multiclass M { def X; }\ndef %s;\ndef %s;\ndefm : M;\ndef { int %s = 1; }" % (nm, n1, f),
+            "class %s;\ndefset list<%s> s = { def %s : %s; def %s : %s; def : %s; }" % (c, c, nm, c, n1, c, c),
+        ]
+        if self.chance(0.5):
+            pats = pats[-4:]
         return pre + self.pick(pats) + "\n" + self.program(self.r.randrange(0, 3))
 
     # ----------------------------------------------------------------- workspaces
@@ -418,8 +429,14 @@ def inject_nonascii(text, rng, n=4):
             break
         i = rng.randrange(len(toks) + 1)
         s = NONASCII[rng.randrange(len(NONASCII))]
-        k = rng.randrange(5)
-        if k == 0:
+        k = rng.randrange(6)
+        if k == 5:
+            # a doc comment (line comment directly above a declaration) whose first character after the slashes is multi-byte whitespace
+            decl = [j for j, t in enumerate(toks) if t in ("class", "def", "defset", "multiclass", "defm", "int", "string", "bit")]
+            if decl:
+                i = decl[rng.randrange(len(decl))]
+            ins = "//%s%s\n" % (rng.choice(DOC_SPACES), rng.choice(["doc", s, ""]))
+        elif k == 0:
             ins = "/* %s */" % s
         elif k == 1:
             ins = "// %s\n" % s
@@ -499,4 +516,43 @@ def expect_cases(rng, n):
         text = text.replace("@U@", "", 1)
         p = "/w/main.td"
         out.append(([[p, text]], p, [[p, upos, [p, dpos, dpos + len(f)]]]))
+    return out
+
+
+def doc_space_cases(rng, n):
+    """doc comments whose first character after the slashes is multi-byte whitespace, above class / def / field / defset /
+    template argument declarations that are also referenced (hover on any occurrence reads the doc comment)"""
+    out = []
+    for _ in range(n):
+        sp = rng.choice(DOC_SPACES)
+        c, d2 = rng.sample(CLASSES, 2)
+        f = rng.choice(FIELDS)
+        doc = lambda: "//%s%s\n" % (sp, rng.choice(["doc", "説明", "", "é x"]))
+        out.append(rng.choice([
+            "%sclass %s {\n  %sint %s = 1;\n}\n%sdef d : %s { let %s = 2; }\n" % (doc(), c, doc(), f, doc(), c, f),
+            "class %s;\n%sdefset list<%s> s = {\n  %sdef e : %s;\n}\ndef r { list<%s> l = s; %s q = e; }\n" % (c, doc(), c, doc(), c, c, c),
+            "%sclass %s<%sint a> { int %s = a; }\n%sclass %s : %s<1>;\n" % (doc(), c, doc(), f, doc(), d2, c),
+            "// plain\n%s// second line\nmulticlass M { %sdef X; }\n%sdefm Z : M;\n%sdefvar v = 1;\ndef u { int q = v; }\n" % (doc(), doc(), doc(), doc()),
+        ]))
+    return out
+
+
+def reedit_cases(g, rng, n):
+    """(files, root, reedit): the same tokens with different trivia BEFORE the symbols (a leading comment deleted / shortened,
+    blank lines, CRLF, re-indentation); the second text is set with set_file_content only"""
+    out = []
+    for _ in range(n):
+        body = g.pick([g.program(g.r.randrange(2, 6)), g.stress(), g.collision_program()])
+        tail = rng.choice(["", "\n// 漢字漢字漢字 tail\n", " /* \U0001F600\U0001F600 */\n", "\n"])
+        lead0 = rng.choice(["// 漢字 a leading comment that will disappear, long enough to move everything\n",
+                            "/* " + "padding " * rng.randrange(4, 14) + "*/\n", "\n\n\n\n        ", "// é\n// é\n// é\n"])
+        lead1 = rng.choice(["", "// 漢\n", "\n", "/* é */ ", lead0 + "\n\n// another 漢字 line\n"])
+        t0, t1 = lead0 + body + tail, lead1 + body + tail
+        if rng.random() < 0.25:
+            t1 = t1.replace("\n", "\r\n")
+        if rng.random() < 0.3:
+            # the edit is in an included file
+            out.append(([["/w/main.td", 'include "a.td"\n' + g.program(1)], ["/w/a.td", t0]], "/w/main.td", [["/w/a.td", t1]]))
+        else:
+            out.append(([["/w/main.td", t0]], "/w/main.td", [["/w/main.td", t1]]))
     return out
